@@ -6,7 +6,7 @@ src/quantum_gates/_gates/integrator.py, src/quantum_gates/_gates/factories.py, s
 cache key ('integrand', 'theta', 'a') (read and written 2x under the same tuple); asserts ['integrand in self._INTEGRAL_LOOKUP.keys()', 'a > 0'];
 the two integration routines are called with ('integrand', 'theta', 'a') in this order; `self.` attributes read: {'integrate': ['use_lookup', '_cache', '_analytical_integration', '_numerical_integration', '_INTEGRAL_LOOKUP'], '_analytical_integration': ['_RESULT_LOOKUP', '_INTEGRAL_LOOKUP'], '_numerical_integration': ['pulse_parametrization', '_INTEGRAL_LOOKUP']}.
 `_cache`: instance attribute, fresh dict in __init__.
-generator call sites in factories.py: ['np.random.normal:24', 'np.random.normal:50', 'np.random.normal:51', 'np.random.normal:52', 'np.random.normal:99', 'np.random.normal:100', 'np.random.multivariate_normal:254', 'np.random.multivariate_normal:294', 'np.random.normal:484', 'np.random.normal:540', 'np.random.multivariate_normal:620', 'np.random.multivariate_normal:666'].
+generator call sites in factories.py: ['np.random.normal:24', 'np.random.normal:50', 'np.random.normal:51', 'np.random.normal:52', 'np.random.normal:99', 'np.random.normal:100', 'np.random.multivariate_normal:254', 'np.random.multivariate_normal:294', 'np.random.normal:484', 'np.random.normal:536', 'np.random.multivariate_normal:616', 'np.random.multivariate_normal:662'].
 `_perform_simulation` (line 248): shot arguments [('data', ('deepcopy', 'data')), ('circ', ('fresh', True, ['int nqubit', 'int depth', 'deepcopy(self.gates)'])), ('device_param', ('deepcopy', 'device_param')), ('psi0', ('deepcopy', 'psi0')), ('qubit_layout', ('deepcopy', 'qubit_layout'))]; sequential loop calls ['_single_shot', 'np.square'];
 `_single_shot` reads ['circ', 'data', 'device_param', 'psi0', 'qubit_layout'] and calls ['_apply_gates_on_circuit', 'circ.statevector', 'np.absolute', 'np.square']; parallel-only shot arguments ['seed'], reseed guarded by their presence: ['seed']. -/
 namespace QG.Gen.Determinism
